@@ -38,6 +38,26 @@ func (obj Symbol) Readably(b []byte, p *Printer) []byte {
 	return append(b, p.caseName(string(obj))...)
 }
 
+// readsBare returns true if the name without bars is read back as the same
+// symbol. The reader tables decide for ASCII, other bytes are left as they are.
+func (obj Symbol) readsBare(p *Printer) bool {
+	if len(obj) == 0 {
+		return false
+	}
+	for i, c := range []byte(obj) {
+		switch {
+		case 0x80 <= c:
+		case i == 0:
+			if valueMode[c] != tokenStart && c != '@' {
+				return false
+			}
+		case tokenMode[c] != skipByte:
+			return false
+		}
+	}
+	return !obj.readsAsOther(p)
+}
+
 // readsAsOther returns true if the reader, with *read-base* the same as the
 // print base, would take the bare name as a number or a time and not as a
 // symbol.
